@@ -146,4 +146,56 @@ theorem ri_location_reset_src : ri_location_reset = ri_location_reset_expected :
 def ri_ecs_reset_expected : String := "nil"
 theorem ri_ecs_reset_src : ri_ecs_reset = ri_ecs_reset_expected := by decide
 
+/-- `acceptMsg`: response flag, opcode, one question, at most one answer, at most one authority record — in this order. -/
+def accept_if_conds_expected : String := "m.Response | m.Opcode != dns.OpcodeQuery && m.Opcode != dns.OpcodeNotify | len(m.Question) != 1 | len(m.Answer) > 1 | len(m.Ns) > 1"
+theorem accept_if_conds_src : accept_if_conds = accept_if_conds_expected := by decide
+
+/-- … with these verdicts. -/
+def accept_returns_expected : String := "dns.MsgIgnore | dns.MsgRejectNotImplemented | dns.MsgReject | dns.MsgReject | dns.MsgReject | dns.MsgAccept"
+theorem accept_returns_src : accept_returns = accept_returns_expected := by decide
+
+/-- `serveDNSMsgInternal` handles the three non-accept verdicts before it calls the handler. -/
+def srv_accept_cases_expected : String := "dns.MsgReject | dns.MsgRejectNotImplemented | dns.MsgIgnore"
+theorem srv_accept_cases_src : srv_accept_cases = srv_accept_cases_expected := by decide
+
+/-- A rejected message is answered FORMERR … -/
+def srv_reject_resp_expected : String := "req, dns.RcodeFormatError"
+theorem srv_reject_resp_src : srv_reject_resp = srv_reject_resp_expected := by decide
+
+/-- … an unsupported opcode NOTIMP. -/
+def srv_notimp_resp_expected : String := "req, dns.RcodeNotImplemented"
+theorem srv_notimp_resp_src : srv_notimp_resp = srv_notimp_resp_expected := by decide
+
+/-- DoQ: when nothing was written … -/
+def quic_if_conds_expected : String := "err != nil | !validQUICMsg(msg) | !written | err != nil"
+theorem quic_if_conds_src : quic_if_conds = quic_if_conds_expected := by decide
+
+/-- … the server answers SERVFAIL itself. -/
+def quic_noresp_expected : String := "msg, dns.RcodeServerFailure"
+theorem quic_noresp_src : quic_noresp = quic_noresp_expected := by decide
+
+/-- DNSCrypt: the handler's response if one was written … -/
+def dnscrypt_if_conds_expected : String := "written"
+theorem dnscrypt_if_conds_src : dnscrypt_if_conds = dnscrypt_if_conds_expected := by decide
+
+/-- … SERVFAIL otherwise. -/
+def dnscrypt_noresp_expected : String := "r, dns.RcodeServerFailure"
+theorem dnscrypt_noresp_src : dnscrypt_noresp = dnscrypt_noresp_expected := by decide
+
+/-- DoH: when nothing was written … -/
+def doh_if_conds_expected : String := "err != nil | !written | err != nil"
+theorem doh_if_conds_src : doh_if_conds = doh_if_conds_expected := by decide
+
+/-- … HTTP 500 without a DNS message. -/
+def doh_noresp_expected : String := "w, \"No response\", http.StatusInternalServerError"
+theorem doh_noresp_src : doh_noresp = doh_noresp_expected := by decide
+
+/-- TCP/DoT: when nothing was written the connection is closed. -/
+def tcp_if_conds_expected : String := "!written"
+theorem tcp_if_conds_src : tcp_if_conds = tcp_if_conds_expected := by decide
+
+/-- The buffering writer of DoH/DoQ/DNSCrypt keeps the last message only. -/
+def nonwriter_write_expected : String := "{ r.req = req r.res = resp return nil }"
+theorem nonwriter_write_src : nonwriter_write = nonwriter_write_expected := by decide
+
 end Agd.Tie.C10
